@@ -188,22 +188,28 @@ func genYen(g *vlib.G) {
 	}
 	// (b) 4-node digraphs over {absent,1,2}: every graph (thorough) or the
 	// graphs whose index is congruent to 5 modulo 25 (quick), in blocks of 81.
-	{
+	// The same over the non-metric alphabet {absent,1,3} (see alphaImprove):
+	// index = 7 modulo 50 (quick) / modulo 5 (thorough).
+	for ai, alpha := range [][]float64{alphaB, alphaImprove} {
+		ai, alpha := ai, alpha
 		ps := pairs(4, true)
 		radix, tail := 3, 4
 		head := len(ps) - tail
 		odometer(head, radix, func(bidx int, hd []int) bool {
 			h := append([]int(nil), hd...)
-			gcase(g, fmt.Sprintf("n=4 dir w=%s+%d", digitString(h, alphaB), tail), func(t *vlib.T) {
+			gcase(g, fmt.Sprintf("n=4 dir %sw=%s+%d", []string{"", "alphabet{1,3} "}[ai], digitString(h, alpha), tail), func(t *vlib.T) {
 				digits := make([]int, len(ps))
 				copy(digits, h)
 				odometer(tail, radix, func(tidx int, tl []int) bool {
 					gi := bidx*81 + tidx
-					if !thorough && gi%25 != 5 {
+					if ai == 0 && !thorough && gi%25 != 5 {
+						return true
+					}
+					if ai == 1 && gi%vlib.Pick(g, 50, 5) != 7%vlib.Pick(g, 50, 5) {
 						return true
 					}
 					copy(digits[head:], tl)
-					r := newRef(specFromDigits(4, true, ps, digits, alphaB))
+					r := newRef(specFromDigits(4, true, ps, digits, alpha))
 					yenGraph(t, r, graphKinds[gi%5], gi%3, false)
 					t.Count("graphs", 1)
 					t.Nontrivial()
